@@ -170,6 +170,10 @@ class BBOXCoverage(object):
         if self.bbox != other.bbox:
             return False
 
+        # a clipping coverage cuts the image, it is not the same as one that only limits the requests
+        if bool(self.clip) != bool(other.clip):
+            return False
+
         return True
 
     def __ne__(self, other):
@@ -253,6 +257,10 @@ class GeomCoverage(object):
             return False
 
         if not self.geom.equals(other.geom):
+            return False
+
+        # a clipping coverage cuts the image, it is not the same as one that only limits the requests
+        if bool(self.clip) != bool(other.clip):
             return False
 
         return True
